@@ -23,6 +23,22 @@ class InjectedFault(RuntimeError):
     pass
 
 
+class InjectedKeyError(KeyError):
+    pass
+
+
+class InjectedOSError(OSError):
+    pass
+
+
+class InjectedValueError(ValueError):
+    pass
+
+
+FAULT_TYPES = {"runtime": InjectedFault, "key": InjectedKeyError, "os": InjectedOSError, "value": InjectedValueError}
+INJECTED = tuple(FAULT_TYPES.values())
+
+
 # (module path, attribute path) of every call site, in program order
 GP_STAGES = [("polyply.src.gen_itp", "load_ff_library"),
              ("polyply.src.gen_itp", "MetaMolecule.from_monomer_seq_linear"),
@@ -68,16 +84,20 @@ def cases(tier):
         for st in [None] + stages:
             for ps in PATH_STATES:
                 yield dict(prog=prog, stage=st, pstate=ps, tier=tier)
+                # the error handling around the serialisers must not depend on the exception class
+                if st is not None and ("write" in st[1] or "deferred_open" in st[1] or "citation" in st[1]) and ps == "present":
+                    for ft in ("key", "os", "value"):
+                        yield dict(prog=prog, stage=st, pstate=ps, tier=tier, fault=ft)
 
 
 class FailingHandle:
     """file proxy raising after k write calls containing a newline"""
-    def __init__(self, real, k):
-        self.real, self.k, self.n = real, k, 0
+    def __init__(self, real, k, exc=InjectedFault):
+        self.real, self.k, self.n, self.exc = real, k, 0, exc
 
     def write(self, text):
         if self.n >= self.k:
-            raise InjectedFault("injected while writing")
+            raise self.exc("injected while writing")
         self.n += text.count("\n") or 1
         return self.real.write(text)
 
@@ -86,8 +106,9 @@ class FailingHandle:
 
 
 @contextlib.contextmanager
-def inject(stage):
+def inject(stage, fault="runtime"):
     import importlib
+    Exc = FAULT_TYPES[fault]
     if stage is None:
         yield
         return
@@ -106,11 +127,11 @@ def inject(stage):
     real = getattr(obj, name)
     if k is None:
         def boom(*a, **kw):
-            raise InjectedFault(f"injected at {attr}")
+            raise Exc(f"injected at {attr}")
         new = boom
     elif name == "write_molecule_itp":
         def new(molecule, outfile, *a, **kw):
-            return real(molecule, FailingHandle(outfile, k), *a, **kw)
+            return real(molecule, FailingHandle(outfile, k, Exc), *a, **kw)
     else:  # write_gro opens the file itself through deferred_open: fail inside by patching the open it uses
         import vermouth.gmx.gro as vgro
         real_open = vgro.deferred_open
@@ -118,7 +139,7 @@ def inject(stage):
         @contextlib.contextmanager
         def failing_open(*a, **kw):
             with real_open(*a, **kw) as fh:
-                yield FailingHandle(fh, k)
+                yield FailingHandle(fh, k, Exc)
 
         def new(*a, **kw):
             vgro.deferred_open = failing_open
@@ -218,7 +239,7 @@ def complete(prog, path):
 def run_case(case):
     prog, stage, pstate = case["prog"], case["stage"], case["pstate"]
     viols = []
-    info = f" | {prog} stage={stage} path={pstate}"
+    info = f" | {prog} stage={stage} path={pstate} fault={case.get('fault', 'runtime')}"
 
     def bad(assertion, msg, tags=()):
         viols.append(dict(assertion=assertion, tags=list(tags), message=msg + info, case=case, detail={}))
@@ -226,7 +247,7 @@ def run_case(case):
     with H.tempdir() as d:
         out = prepare(d, EXT[prog], pstate)
         before = listing(d / "out")
-        with inject(tuple(stage) if stage else None):
+        with inject(tuple(stage) if stage else None, case.get("fault", "runtime")):
             exc = run_prog(prog, d, out, "a")
         after = listing(d / "out")
         if stage is None:
@@ -242,7 +263,7 @@ def run_case(case):
                 if pstate == "present+backup" and after.get(f"#{EXT[prog]}.1#") != before[f"#{EXT[prog]}.1#"]:
                     bad("previous-file-kept-as-backup", "older backup was modified")
         else:
-            reached = isinstance(exc, InjectedFault)
+            reached = isinstance(exc, INJECTED)
             if exc is None:
                 # the stage is not on the path of this input (e.g. no ligands): nothing to judge
                 return dict(evals=1, keys=[], violations=[], stats={"stage_not_reached": 1})
